@@ -90,10 +90,17 @@ class Run:
         if hr.playback is None:
             out["note"] = "kani produced no concrete playback (status %s: %s)" % (hr.status, hr.reason)
             return out, False
-        pretty, test_src = hr.playback
+        # Kani prints one test per failed check AND per satisfied cover: try the ones for failed checks first
+        cands = sorted(hr.playbacks or [hr.playback], key=lambda t: ("Check for `cover`" in t[1], ))
+        ran = passed = False
+        tail = ""
+        pretty, test_src = cands[0]
+        for pretty, test_src in cands[:6]:
+            ran, passed, tail = kani_unit.run_playback(REPO, crate, module, pretty, test_src)
+            if ran and not passed:
+                break
         out["playback_test"] = test_src
         out["values"] = kani_unit.decode_playback_values(test_src)
-        ran, passed, tail = kani_unit.run_playback(REPO, crate, module, pretty, test_src)
         out["native_run_ran"] = ran
         out["native_run_output_tail"] = tail[-2500:]
         out["module"] = module
@@ -181,6 +188,27 @@ class Run:
                 # a failure that only shows under a different seed is proof instability, not a violation
                 why = r.reason if r.status == "undecided" else "unstable proof under seed %s: %s" % (sd, [f["obligation"] for f in r.failures][:2])
                 self.log("  UNDECIDED [verus] %s: %s" % (unit, why))
+                w = st.get("witness")
+                if sd is None and w:
+                    # the proof could not be attempted on this shape of the function (restructured code, construct the
+                    # Verus front end rejects): fall back to the unit's BOUNDED stand-in -- the Kani witness harnesses
+                    # that compare the real function with an executable transcription of the spec function. A failing
+                    # harness is a violation with a counterexample; passing harnesses leave the unit undecided.
+                    found = False
+                    for hname in w["harnesses"]:
+                        self.log("  bounded stand-in: Kani witness harness %s ..." % hname)
+                        res, logp = kani_unit.run_harnesses(REPO, w["crate"], [hname], timeout_s=w.get("timeout", 900), jobs=1, tag="wit_" + hname)
+                        wr = res[hname]
+                        if wr.status == "failed":
+                            fc = wr.failed_checks[0]
+                            cex, reproduced = self.kani_counterexample(w["crate"], w["module"], hname, w.get("timeout", 900))
+                            cex.update(engine="kani", failed_checks=wr.failed_checks, note="Verus unit %s undecided (%s); bounded witness harness failed" % (unit, why))
+                            self.report("%s::%s::%s" % (w["crate"], hname, _san(fc["description"])[:60]), cex, reproduced)
+                            found = True
+                            break
+                        self.log("    %s: %s %s" % (hname, wr.status, wr.reason))
+                    if found:
+                        continue
                 self.undecided.append("%s: %s" % (unit, why))
                 continue
             # failed on the default seed
